@@ -48,6 +48,15 @@ def wShared : NContent :=
     derived := [("d1", ⟨0, ["x", "k"]⟩), ("d2", ⟨0, ["k", "x"]⟩)]
     rxns := [("r", { rate := ⟨0, ["d1", "d2"]⟩, stoich := [("x", .dyn ⟨1, ["q", "k"]⟩)] })] }
 
+/-- the class repaired by `fix: keep the names generated for initial-assignment and stoichiometry functions
+    apart from the component functions`: the initial assignment of `q` uses `f` (key `init_f`), and a derived
+    quantity's function is itself called `init_f` -/
+def wCross : NContent :=
+  { fns := [pAdd "f", pMul "init_f", pSub "g"]
+    vars := [("x", .plain 1)], pars := [("k", .plain 3), ("q", .ia ⟨0, ["k", "x"]⟩)]
+    derived := [("d1", ⟨1, ["x", "q"]⟩)]
+    rxns := [("r", { rate := ⟨2, ["d1", "k"]⟩, stoich := [("x", .num (-1))] })] }
+
 theorem canonical_of_all2 (c : NContent)
     (h2 : ∀ u ∈ Use.all c, u.args.length = 2)
     (hf : ∀ u ∈ Use.all c, ∀ vs, (c.pyfn u.fid).fn vs = (c.pyfn u.fid).fn [vs.getD 0 0, vs.getD 1 0]) :
@@ -67,6 +76,12 @@ theorem wShared_canonical : Canonical wShared := by
   · intro u hu; simp [Use.all, wShared] at hu; rcases hu with rfl | rfl | rfl | rfl | rfl <;> rfl
   · intro u hu vs; simp [Use.all, wShared] at hu
     rcases hu with rfl | rfl | rfl | rfl | rfl <;> simp [NContent.pyfn, wShared, pSub, pAdd]
+
+theorem wCross_canonical : Canonical wCross := by
+  apply canonical_of_all2
+  · intro u hu; simp [Use.all, wCross] at hu; rcases hu with rfl | rfl | rfl <;> rfl
+  · intro u hu vs; simp [Use.all, wCross] at hu
+    rcases hu with rfl | rfl | rfl <;> simp [NContent.pyfn, wCross, pSub, pAdd, pMul]
 
 theorem wDimer_canonical : Canonical wDimer := by
   intro u hu vs
